@@ -357,3 +357,123 @@ func runChangedC12(r *core.CaseResult) {
 		}
 	}
 }
+
+// ---- C14: a Query executed again after an execution that failed part-way
+
+func runChangedC14(r *core.CaseResult, bound int) {
+	items := []struct {
+		sql, col string
+		fn       int64
+		mul      float64
+	}{
+		{"ASYNC.HSLOW(a) AS s", "s", 1, 2},
+		{"SPINASYNC.HSLOW(a)", "", 1, 0},
+		{"ASYNC.HFAST(a) AS s", "s", 2, 3},
+	}
+	cfg := vrt.Config{Sched: true, Quiet: true}
+	vrt.SetQuiet(genql.VerifSelectorMutex())
+	r.BoundDone = bound
+	for _, it := range items {
+		for rows := 1; rows <= 2; rows++ {
+			for k := 1; k <= rows; k++ {
+				sql := "SELECT id, " + it.sql + ", FAULT(id) AS x FROM t"
+				mk := func() map[string]any {
+					t := []any{}
+					for j := 0; j < rows; j++ {
+						t = append(t, map[string]any{"id": float64(j), "a": float64(10 + j)})
+					}
+					return map[string]any{"t": t}
+				}
+				var want []string
+				for j := 0; j < rows; j++ {
+					row := map[string]any{"id": float64(j), "x": float64(j)}
+					if it.col != "" {
+						row[it.col] = it.mul * float64(10+j)
+					}
+					want = append(want, gq.Render(row))
+				}
+				var first, second *gq.Out
+				run := func(prefix []int32) *vrt.Result {
+					doc := mk()
+					genql.VerifResetSelectorCache()
+					first, second = &gq.Out{}, &gq.Out{}
+					res := vrt.Run(cfg, prefix, func() {
+						resetFaults(k)
+						q, err := genql.New(doc, sql, genql.UnReportedErrors(func(error) {}))
+						if err != nil {
+							first.Err, first.InNew = err, true
+							return
+						}
+						func() {
+							defer func() {
+								if rec := recover(); rec != nil {
+									first.Panic = fmt.Sprint(rec)
+								}
+							}()
+							first.Rows, first.Err = q.Exec()
+						}()
+						resetFaults(0)
+						func() {
+							defer func() {
+								if rec := recover(); rec != nil {
+									second.Panic = fmt.Sprint(rec)
+								}
+							}()
+							second.Rows, second.Err = q.Exec()
+						}()
+						vrt.Log(evRet, 0, 0)
+					})
+					second.GPanic = res.GPanic
+					return res
+				}
+				failed := false
+				check := func(prefix []int32, res *vrt.Result) bool {
+					cs := map[string]any{"sql": sql, "doc": mk(), "fault-at": k, "choices": prefix}
+					fail := func(mode, msg string) bool {
+						failed = true
+						r.Fail("C14|re-execution-after-failure|"+strings.SplitN(it.sql, "(", 2)[0]+"|"+mode, fmt.Sprintf("%s on %d rows, first execution failing at row %d, schedule %v: %s", sql, rows, k-1, prefix, msg), cs)
+						return false
+					}
+					if first.Err == nil || first.InNew || first.Panic != "" {
+						return fail("first", fmt.Sprintf("the first execution was to fail in Exec: err=%v panic=%s", first.Err, first.Panic))
+					}
+					if second.Failed() || second.GPanic != "" {
+						return fail(second.Status(), fmt.Sprintf("the second execution ended with %s: %v %s %s", second.Status(), second.Err, second.Panic, second.GPanic))
+					}
+					starts := map[int64]int{}
+					for _, e := range res.Events {
+						if e.Tag == evStart && e.A == it.fn {
+							starts[e.B]++
+						}
+					}
+					for j := 0; j < rows; j++ {
+						// the failed execution had already issued the calls of rows 0..k-1: whether those
+						// still run is not the property's matter, the second execution's own call is
+						lo, hi := 1, 1
+						if j < k {
+							hi = 2
+						}
+						if n := starts[int64(10+j)]; n < lo || n > hi {
+							return fail("invocations", fmt.Sprintf("the function was invoked %d times for row %d over both executions, want %d..%d (once by the second execution)", n, j, lo, hi))
+						}
+					}
+					if got := gq.RenderRows(second.Rows); !gq.SameSeq(got, want) {
+						return fail("rows", fmt.Sprintf("the second execution returned %v, want %v", got, want))
+					}
+					return true
+				}
+				e := newExplorer(run, check, 200000)
+				e.Explore(bound)
+				r.Execs += e.Stats.Execs
+				r.Transitions += e.Stats.Transitions
+				r.States += int64(len(e.Stats.States))
+				if e.Stats.Capped {
+					r.Capped = true
+				}
+				if e.Stats.Execs > 1 && !failed {
+					r.Nontrivial = true
+				}
+			}
+		}
+	}
+}
